@@ -1170,6 +1170,41 @@ def _referenced_elsewhere(names, rel, root):
     return out
 
 
+def lower_grad_decorators(tree) -> bool:
+    """`@torch.no_grad()` / `@torch.enable_grad()` / `@torch.inference_mode()` on a function is the same program as the function body inside the corresponding `with` block.
+    The rules read gradient contexts from `with` statements (and carry them along when a helper is inlined), so the decorator form is lowered to the block form -- on every
+    normal form of the tree, including the tree as written: a rule that ignored the decorator would be unsound, not merely brittle."""
+    changed = False
+    for fn in ast.walk(tree):
+        if not isinstance(fn, (ast.FunctionDef, ast.AsyncFunctionDef)):
+            continue
+        keep = []
+        ctxs = []
+        for d in fn.decorator_list:
+            core = d.func if isinstance(d, ast.Call) else d
+            txt = ast.unparse(core)
+            if txt.split(".")[-1] in ("no_grad", "enable_grad", "inference_mode") and txt.split(".")[0] in ("torch", "th"):
+                ctxs.append(d if isinstance(d, ast.Call) else ast.Call(func=d, args=[], keywords=[]))
+            else:
+                keep.append(d)
+        if not ctxs:
+            continue
+        body = fn.body
+        doc = []
+        if body and isinstance(body[0], ast.Expr) and isinstance(body[0].value, ast.Constant) and isinstance(body[0].value.value, str):
+            doc, body = body[:1], body[1:]
+        for c in reversed(ctxs):          # outermost decorator = outermost block
+            w = ast.With(items=[ast.withitem(context_expr=c, optional_vars=None)], body=body or [ast.Pass()], type_comment=None)
+            ast.copy_location(w, fn)
+            body = [w]
+        fn.body = doc + body
+        fn.decorator_list = keep
+        changed = True
+    if changed:
+        ast.fix_missing_locations(tree)
+    return changed
+
+
 def normalize_tree(tree, rel: str, temporaries: bool = True, root: Optional[str] = None) -> bool:
     inv = inventory().get(rel)
     if inv is None:
